@@ -158,6 +158,8 @@ pub struct Obs {
     pub attempts: Vec<Attempt>,
     /// the call was ended by a panic of the scripted writer (at its last attempt)
     pub scripted_panic: bool,
+    /// ... and that attempt carried the emit's own line: what became of the metric is open
+    pub uncertain: bool,
 }
 
 pub struct Run {
@@ -216,15 +218,31 @@ pub fn run(cap: usize, end: &str, hist: &[Op], drop_script: &[Ans]) -> Run {
                     res: to_res(r),
                     attempts,
                     scripted_panic: false,
+                    uncertain: false,
                 }),
                 Err(p) if scripted.is_some() && p.is::<crate::rt::ScriptedPanic>() => {
-                    // the writer's own panic, passed on to the caller: for the reference model the call
-                    // failed with that attempt's failure; the writer stays in use
+                    // the writer's own panic, passed on to the caller (the statements speak of failed
+                    // writes, not of a writer that panics; the writer stays in use and is judged on).
+                    // For the reference model the call failed with that attempt's failure before its metric
+                    // was taken - unless the attempt that panicked already carried the emit's own line ...
+                    let carried_own_line = match (&call, attempts.last()) {
+                        (Call::Emit(m), Some(a)) => {
+                            let mut line = m.bytes();
+                            line.extend_from_slice(end.as_bytes());
+                            !line.is_empty() && a.bytes.len() >= line.len() && a.bytes.ends_with(&line)
+                        }
+                        _ => false,
+                    };
+                    // ... whether the metric then stayed in the buffer (a sink that buffers first and
+                    // sends a datagram as soon as it is exactly full) or was never taken (std's BufWriter
+                    // passing a write of its own capacity straight through) is not for the statements to
+                    // say: such a history is judged up to this call and no further.
                     out.obs.push(Obs {
                         call,
                         res: Res::Err(scripted, "the underlying writer panicked".into()),
                         attempts,
                         scripted_panic: true,
+                        uncertain: carried_own_line,
                     })
                 }
                 Err(p) => {
@@ -234,6 +252,7 @@ pub fn run(cap: usize, end: &str, hist: &[Op], drop_script: &[Ans]) -> Run {
                         res: Res::Err(None, "panic".into()),
                         attempts,
                         scripted_panic: false,
+                        uncertain: false,
                     });
                     // the writer may be in an arbitrary state: leak it rather than drop it
                     std::mem::forget(w);
@@ -282,8 +301,15 @@ pub fn judge(cap: usize, end: &str, hist: &[Op], run: &Run, faulty: bool, with_d
             },
         ));
     }
+    let mut open_ended = false;
     for (i, o) in run.obs.iter().enumerate() {
         if run.panic.as_ref().map(|p| p.0 == i).unwrap_or(false) {
+            break;
+        }
+        if o.uncertain {
+            // judged up to here: the attempts of this call are still checked for framing below by
+            // the calls before it; what follows depends on what became of the metric
+            open_ended = true;
             break;
         }
         for b in model.step(&o.call, &o.attempts, &o.res) {
@@ -296,7 +322,7 @@ pub fn judge(cap: usize, end: &str, hist: &[Op], run: &Run, faulty: bool, with_d
             model.inner_panicked = true;
         }
     }
-    if with_drop && run.panic.is_none() {
+    if with_drop && run.panic.is_none() && !open_ended {
         for b in model.step(&Call::Drop, &run.drop_attempts, &Res::Ok(0)) {
             breaches.push((hist.len(), b));
         }
@@ -512,6 +538,11 @@ pub fn bfs(cap: usize, end: &str, maxf: usize, budget: u64) -> Report {
         if !j.breaches.is_empty() {
             record(rep, cap, end, hist, &[], faulty, &j, r);
             return false; // do not explore beyond a violating state
+        }
+        if r.obs.iter().any(|o| o.uncertain) {
+            // judged up to the call whose metric's fate is open; nothing to explore beyond it
+            rep.flag("writer-panic-left-the-metric's-fate-open");
+            return false;
         }
         coverage_flags(rep, cap, end, hist, r);
         let got: Vec<u8> = r.drop_attempts.iter().flat_map(|a| a.bytes.clone()).collect();
